@@ -21,6 +21,12 @@
 //!            whose probe answers `compiler_id=<kind>` / `compiler_version=<version>`; then the real parse_arguments
 //!            and generate_hash_key run for `-c foo.c -o foo.o` with `pp_text` as the preprocessor's output: the key
 //!            printed is what hash_key returns with the plusplus() of the detected compiler
+//!   flow     case `( (label..) ( step ... ) )`   step = ( exe kind version ((k v)..) ((name #content mtime_secs)..) ppmode )
+//!            -> `( ( #result-key #manifest-key|none ) | undetected | cannot_cache | err | panic ... )`: the steps of a case
+//!            run one after the other IN THIS PROCESS and in ONE directory: real get_compiler_info (mock probe), real
+//!            parse_arguments for `-c foo.c -o foo.o -fsanitize-blacklist=<name>...` and real generate_hash_key with the
+//!            step's client environment, on a storage that records the preprocessor-cache key it is asked for; the extra
+//!            files are (re)written with exactly the given contents and mtime before each step
 //!   hashpre  case `( item ... )`                -> `( #key|none ... )`  item = none | ( piece ... ),
 //!                                                   piece = #literal-bytes | ( piece ... )  (= util::hex(BLAKE3(the inner pieces)))
 //!            (this leg turns the MODEL's pre-image into a key: BLAKE3 + `util::hex`, flushing after every line so
@@ -28,8 +34,8 @@
 use filetime::{set_file_mtime, FileTime};
 use sccache::util::{Digest, HashToDigest};
 use sccache::verif_hooks::cache::disk::DiskCache;
-use sccache::verif_hooks::cache::{CacheMode, PreprocessorCacheModeConfig, Storage};
-use sccache::verif_hooks::compiler::{get_compiler_info, CacheControl, CompilerArguments};
+use sccache::verif_hooks::cache::{Cache, CacheMode, CacheWrite, PreprocessorCacheModeConfig, Storage};
+use sccache::verif_hooks::compiler::{get_compiler_info, CacheControl, CompilerArguments, PreprocessorCacheEntry};
 use sccache::verif_hooks::jobserver::Client;
 use sccache::verif_hooks::mock_command::{CommandCreatorSync, MockChild, MockCommandCreator};
 use std::sync::{Arc, Mutex};
@@ -352,6 +358,141 @@ fn driver_key(rt: &tokio::runtime::Runtime, storage: &Arc<dyn Storage>, root: &P
     }
 }
 
+struct RecStorage {
+    inner: Arc<dyn Storage>,
+    ppmode: std::sync::atomic::AtomicBool,
+    asked: Mutex<Vec<String>>,
+}
+
+#[async_trait::async_trait]
+impl Storage for RecStorage {
+    async fn get(&self, key: &str) -> anyhow::Result<Cache> {
+        self.inner.get(key).await
+    }
+    async fn put(&self, key: &str, entry: CacheWrite) -> anyhow::Result<std::time::Duration> {
+        self.inner.put(key, entry).await
+    }
+    fn location(&self) -> String {
+        self.inner.location()
+    }
+    async fn current_size(&self) -> anyhow::Result<Option<u64>> {
+        self.inner.current_size().await
+    }
+    async fn max_size(&self) -> anyhow::Result<Option<u64>> {
+        self.inner.max_size().await
+    }
+    fn preprocessor_cache_mode_config(&self) -> PreprocessorCacheModeConfig {
+        PreprocessorCacheModeConfig {
+            use_preprocessor_cache_mode: self.ppmode.load(std::sync::atomic::Ordering::SeqCst),
+            ..Default::default()
+        }
+    }
+    async fn get_preprocessor_cache_entry(
+        &self,
+        key: &str,
+    ) -> anyhow::Result<Option<Box<dyn sccache::lru_disk_cache::ReadSeek>>> {
+        self.asked.lock().unwrap().push(key.to_owned());
+        Ok(None)
+    }
+    async fn put_preprocessor_cache_entry(&self, _key: &str, _e: PreprocessorCacheEntry) -> anyhow::Result<()> {
+        Ok(())
+    }
+}
+
+fn flow_step(rt: &tokio::runtime::Runtime, storage: &Arc<RecStorage>, dir: &Path, st: &Sx) -> Sx {
+    let cwd = dir.join("w");
+    let bin = dir.join("bin");
+    if std::fs::create_dir_all(&cwd).is_err() || std::fs::create_dir_all(&bin).is_err() {
+        return Sx::sym("err");
+    }
+    let exe = bin.join(OsStr::from_bytes(st.arg(0).bytes()));
+    if std::fs::write(&exe, b"\x7fELF-one-binary").is_err() || std::fs::write(cwd.join("foo.c"), b"int x;\n").is_err() {
+        return Sx::sym("err");
+    }
+    let old = FileTime::from_unix_time(1_600_000_000, 0);
+    let _ = set_file_mtime(&exe, old);
+    let _ = set_file_mtime(cwd.join("foo.c"), old);
+    let mut args: Vec<OsString> = vec!["-c".into(), "foo.c".into(), "-o".into(), "foo.o".into()];
+    for f in st.arg(4).list() {
+        let p = cwd.join(OsStr::from_bytes(f.arg(0).bytes()));
+        if std::fs::write(&p, f.arg(1).bytes()).is_err()
+            || set_file_mtime(&p, FileTime::from_unix_time(f.arg(2).u64() as i64, 0)).is_err()
+        {
+            return Sx::sym("err");
+        }
+        let mut a = OsString::from("-fsanitize-blacklist=");
+        a.push(OsStr::from_bytes(f.arg(0).bytes()));
+        args.push(a);
+    }
+    let env = env_list(st.arg(3));
+    let creator: Arc<Mutex<MockCommandCreator>> = CommandCreatorSync::new(&Client::new_num(1));
+    let mut probe = b"compiler_id=".to_vec();
+    probe.extend_from_slice(st.arg(1).bytes());
+    probe.push(b'\n');
+    if let Some(v) = st.arg(2).list().first() {
+        probe.extend_from_slice(b"compiler_version=");
+        probe.extend_from_slice(v.bytes());
+        probe.push(b'\n');
+    }
+    creator.lock().unwrap().next_command_spawns(Ok(MockChild::new(exit_ok(), probe, "")));
+    let pool = rt.handle().clone();
+    let compiler = match rt.block_on(get_compiler_info(creator.clone(), &exe, &cwd, &args, &env, &pool, None)) {
+        Ok((c, _)) => c,
+        Err(_) => return Sx::sym("undetected"),
+    };
+    creator.lock().unwrap().children.clear();
+    creator
+        .lock()
+        .unwrap()
+        .next_command_spawns(Ok(MockChild::new(exit_ok(), &b"# 1 \"foo.c\"\nint x;\n"[..], "")));
+    let hasher = match compiler.parse_arguments(&args, &cwd, &env) {
+        CompilerArguments::Ok(h) => h,
+        _ => return Sx::sym("cannot_cache"),
+    };
+    storage.ppmode.store(st.arg(5).as_bool(), std::sync::atomic::Ordering::SeqCst);
+    storage.asked.lock().unwrap().clear();
+    let dynst: Arc<dyn Storage> = storage.clone();
+    let r = rt.block_on(hasher.generate_hash_key(&creator, cwd.clone(), env, false, &pool, false, dynst, CacheControl::Default));
+    let asked = storage.asked.lock().unwrap().clone();
+    match r {
+        Ok(h) => Sx::L(vec![
+            Sx::B(h.key.into_bytes()),
+            match asked.first() {
+                Some(k) => Sx::B(k.clone().into_bytes()),
+                None => Sx::sym("none"),
+            },
+        ]),
+        Err(_) => Sx::sym("err"),
+    }
+}
+
+fn leg_flow() {
+    let rt = tokio::runtime::Builder::new_current_thread().enable_all().build().unwrap();
+    let td = tempfile::Builder::new().prefix("vh-c02-drv-").tempdir_in("/dev/shm").unwrap();
+    let root = td.path().to_path_buf();
+    let inner: Arc<dyn Storage> = Arc::new(DiskCache::new(
+        root.join("cache"),
+        1 << 24,
+        rt.handle(),
+        PreprocessorCacheModeConfig::default(),
+        CacheMode::ReadWrite,
+    ));
+    let storage = Arc::new(RecStorage { inner, ppmode: std::sync::atomic::AtomicBool::new(false), asked: Mutex::new(vec![]) });
+    let mut n = 0usize;
+    vh::run_lines(|c| {
+        n += 1;
+        let dir = root.join(format!("c{}", n));
+        let out = c
+            .arg(1)
+            .list()
+            .iter()
+            .map(|st| vh::catch(|| flow_step(&rt, &storage, &dir, st)).unwrap_or_else(|_| Sx::sym("panic")))
+            .collect();
+        let _ = std::fs::remove_dir_all(&dir);
+        Sx::L(out)
+    });
+}
+
 fn leg_driver() {
     let rt = tokio::runtime::Builder::new_current_thread().enable_all().build().unwrap();
     let td = tempfile::Builder::new().prefix("vh-c02-drv-").tempdir_in("/dev/shm").unwrap();
@@ -414,6 +555,7 @@ fn main() {
         "key" => vh::run_lines(|c| Sx::L(c.arg(1).list().iter().map(key_of).collect())),
         "ppkey" => vh::run_lines(|c| Sx::L(c.arg(1).list().iter().map(ppkey_of).collect())),
         "driver" => leg_driver(),
+        "flow" => leg_flow(),
         "ppkey-root" => {
             let ok = enter_private_root();
             vh::run_lines(|c| {
